@@ -17,7 +17,9 @@ INT_MAX = 2147483647
 INT_MIN = -2147483648
 
 ARENA_STRINGS = [b"ck", b"K", b"k", b"", b"a/b", b"A", b"a", b"m~n", b"const key with spaces", b"0", b"\xc3\xa9"]
-KEY_POOL = [b"a", b"A", b"b", b"B", b"k", b"K", b"key", b"KEY", b"Key", b"", b"0", b"1", b"a/b", b"m~n", b"z", b"ab", b"aB", b"\xc3\xa9", b"k2"]
+KEY_POOL = [b"a", b"A", b"b", b"B", b"k", b"K", b"key", b"KEY", b"Key", b"", b"0", b"1", b"a/b", b"m~n", b"z", b"Z", b"ab", b"aB", b"\xc3\xa9", b"k2",
+            # pairs that differ only in bit 0x20 but are NOT letters: ASCII case folding must keep them apart
+            b"[", b"{", b"@", b"`", b"]", b"}", b"^", b"~", b"_", b"\x7f", b"\\", b"|", b"k[", b"K{", b"\xc3\x89", b"0", b"\x10", b"1", b"\x11"]
 STR_POOL = [b"", b"x", b"hello", b"a longer string value", b"\"quoted\"\\", b"\n\t", b"\xc3\xa9\xe2\x82\xac", b"0123456789" * 3, b"s", b"xy"]
 NUM_POOL = [0.0, 1.0, -1.0, 0.5, 2147483647.0, 2147483648.0, -2147483649.0, 1e15, 1.5e300, -0.0, 3.25, 1e-7, 42.0, 123456789.125]
 
